@@ -142,6 +142,29 @@ Theorem C15_anim_close_choice : forall fx frameCount hasPrev hasMeta animData si
 Proof. exact anim_close_choice. Qed.
 Print Assumptions C15_anim_close_choice.
 
+(** Animation encoder, metadata round trip: for every history of muxer operations
+    (AddFrame, SetICCProfile, SetEXIF, SetXMP, ... -- all the animation encoder does
+    to its muxer) after which some metadata is set, the repaired Close writes the
+    muxer's file, the demuxer accepts it and returns each blob byte for byte
+    (GetChunk by id).  Composition with the C14 round trip (MuxRoundtrip.extended_roundtrip). *)
+From Webp Require Riff.DemuxModel Riff.MuxModel Riff.MuxView Riff.WriterAnimMeta.
+Theorem C15_anim_metadata_roundtrip :
+  forall ops frameCount hasPrev simple bs,
+    Forall MuxView.op_ok ops ->
+    let m := MuxModel.run ops in
+    WriterAnimMeta.mux_has_meta m = true ->
+    MuxModel.assemble MuxModel.repaired m = Ok bs ->
+    let out := anim_close true frameCount hasPrev true bs simple in
+    out = bs /\
+    exists d, DemuxModel.parse true out = Ok d /\
+      DemuxModel.d_icc d = MuxModel.m_icc m /\ DemuxModel.d_exif d = MuxModel.m_exif m /\
+      DemuxModel.d_xmp d = MuxModel.m_xmp m /\
+      (forall x, MuxModel.m_icc m = Some x -> DemuxModel.get_chunk d DemuxModel.FCC_ICCP = Ok x) /\
+      (forall x, MuxModel.m_exif m = Some x -> DemuxModel.get_chunk d DemuxModel.FCC_EXIF = Ok x) /\
+      (forall x, MuxModel.m_xmp m = Some x -> DemuxModel.get_chunk d DemuxModel.FCC_XMP = Ok x).
+Proof. exact WriterAnimMeta.anim_metadata_roundtrip. Qed.
+Print Assumptions C15_anim_metadata_roundtrip.
+
 (** Pinned Close (before commit b34a072): one frame + EXIF, the still candidate
     replaces the file and the EXIF chunk is gone (finding, repaired). *)
 Theorem C15_anim_single_frame_drops_metadata :
